@@ -62,7 +62,9 @@ def _mk():
                       "4a3": lambda: Connector(CoU(4, 3), time_limit=7)},
         "Snake": {"3x3": lambda: Snake(3, 3, time_limit=7), "3x4": lambda: Snake(3, 4, time_limit=7), "4x3": lambda: Snake(4, 3, time_limit=7)},
         "Sokoban": {"toy": lambda: Sokoban(SToy(), time_limit=7)},
-        "LevelBasedForaging": {"g6a2f2v": lambda: LevelBasedForaging(LGen(6, 2, 2, 2), time_limit=7),
+        # independent size parameters are chosen DISTINCT (num_agents != num_food), so that a shape taken from the wrong one is visible
+        "LevelBasedForaging": {"g6a3f2v": lambda: LevelBasedForaging(LGen(6, 3, 2, 2), time_limit=7),
+                               "g6a2f2v": lambda: LevelBasedForaging(LGen(6, 2, 2, 2), time_limit=7),
                                "g6a2f2grid": lambda: LevelBasedForaging(LGen(6, 2, 2, 6), time_limit=7, grid_observation=True)},
         "RobotWarehouse": {"tiny1": lambda: RobotWarehouse(RWGen(1, 3, 1, 1, 1, 2), time_limit=7),
                            "tiny2": lambda: RobotWarehouse(RWGen(1, 3, 1, 2, 1, 2), time_limit=7)},
@@ -88,7 +90,7 @@ QUICK = {
     "BinPack": ["i2e3o3", "i2e3o2", "i2e3o3raw"], "FlatPack": ["2x2"], "Tetris": ["4x4", "5x4"],
     "Cleaner": ["3x5a2", "5x3a2", "3x3a1"], "Maze": ["5x7", "7x5", "3x3"], "TSP": ["3", "4"], "CVRP": ["3", "4"],
     "Connector": ["3a2", "4a2"], "Snake": ["3x3", "3x4", "4x3"], "Sokoban": ["toy"],
-    "LevelBasedForaging": ["g6a2f2v", "g6a2f2grid"], "RobotWarehouse": ["tiny1", "tiny2"], "MultiCVRP": ["c6v2"],
+    "LevelBasedForaging": ["g6a3f2v", "g6a2f2grid"], "RobotWarehouse": ["tiny1", "tiny2"], "MultiCVRP": ["c6v2"],
     "MMST": ["default"], "PacMan": ["default"],
 }
 
